@@ -237,3 +237,240 @@ Proof.
   apply (C16_v3_generation_skips_only_invalid_scalars picky two_step 0 5 (GenKey (repeat x01 48)) 2 0 (repeat x00 48));
     [vm_compute; reflexivity|lia|lia|reflexivity].
 Qed.
+
+(* ================= operations composed with their draws (added after the first audit) ================= *)
+Definition msg3 : bytes := [x61; x62; x63].
+Lemma v4_synth_id : lp_synth (v4_params toy) = (fun n _ => n).
+Proof. reflexivity. Qed.
+
+(* ---- local seal: the source fails exactly at the call of this operation (index 3); the operation before it on
+        the same source succeeds, so the error is caused by the failure and by nothing else ---- *)
+Example C16_local_seal_op_fail_closed_nonvacuous :
+  local_seal_op (v4_params toy) (script_rng (Some 3)) 3 key32 [] msg3 [] [] = (Err CryptoError, 4) /\
+  (exists p, local_seal_op (v4_params toy) (script_rng (Some 3)) 2 key32 [] msg3 [] [] = (Ok p, 3) /\ length p = 67) /\
+  local_seal_op (v3_params toy) R3 3 key32 [] msg3 [] [] = (Err CryptoError, 4).
+Proof.
+  split; [exact (C16_local_seal_op_fail_closed (v4_params toy) (script_rng (Some 3)) 3 key32 [] msg3 [] [] eq_refl)|].
+  split; [eexists; split; [vm_compute; reflexivity|reflexivity]|].
+  exact (C16_local_seal_op_fail_closed (v3_params toy) R3 3 key32 [] msg3 [] [] eq_refl).
+Qed.
+(* NOTE (definitional, as recorded for C16_fail_closed above): the statement does not depend on [P] — the
+   operation is DEFINED as "draw, then seal", so it holds of a nonsensical parameter record too.  The tie to the
+   code is the scripted-RNG harness, not this theorem. *)
+Definition junk_lparams : lparams :=
+  {| lp_tlen := 4000; lp_aad := false; lp_short := Panic "x"; lp_synth := fun _ _ => [];
+     lp_ks := fun _ _ _ => []; lp_tag := fun _ _ _ _ _ _ => [] |}.
+Lemma C16_local_seal_op_fail_closed_independent_of_backend :
+  local_seal_op junk_lparams (script_rng (Some 0)) 0 [] [] [] [] [] = (Err CryptoError, 1).
+Proof. apply C16_local_seal_op_fail_closed. reflexivity. Qed.
+
+(* ---- embeds: a source whose blocks depend on the call index; the nonce field of the token sealed at call 7 is
+        block 7, and exactly one call was consumed ---- *)
+Example C16_local_seal_op_embeds_nonvacuous :
+  exists p, local_seal_op (v4_params toy) le_counter_rng 7 key32 [] msg3 [] [] = (Ok p, 8) /\
+            take 32 p = le_bytes 32 7 /\ le_bytes 32 7 = x07 :: repeat x00 31 /\ length p = 67.
+Proof.
+  destruct (local_seal_op (v4_params toy) le_counter_rng 7 key32 [] msg3 [] []) as [[p| |] j] eqn:E;
+    try (vm_compute in E; discriminate).
+  destruct (C16_local_seal_op_embeds (v4_params toy) le_counter_rng 7 key32 [] msg3 [] [] (le_bytes 32 7) p j
+              eq_refl (le_bytes_length _ _) v4_synth_id E) as (A & B).
+  subst j. exists p. split; [reflexivity|]. split; [exact A|]. split; [vm_compute; reflexivity|].
+  vm_compute in E. inversion E. reflexivity.
+Qed.
+(* the synth hypothesis is used: v1 hashes the draw with the message, and the conclusion is false there *)
+Example C16_local_seal_op_embeds_nonvacuous_excludes_v1 :
+  exists p, local_seal_op (v1_params toy) le_counter_rng 7 key32 [] msg3 [] [] = (Ok p, 8) /\ take 32 p <> le_bytes 32 7.
+Proof. eexists. split; [vm_compute; reflexivity|]. vm_compute. discriminate. Qed.
+
+(* ---- the headline: the SAME message under the SAME key sealed twice in a row ---- *)
+Example C16_consecutive_seals_have_different_nonces_nonvacuous :
+  exists p1 p2, local_seal_op (v4_params toy) le_counter_rng 5 key32 [] msg3 [] [] = (Ok p1, 6) /\
+                local_seal_op (v4_params toy) le_counter_rng 6 key32 [] msg3 [] [] = (Ok p2, 7) /\
+                take 32 p1 <> take 32 p2 /\ drop 32 p1 = drop 32 p2.   (* toy: everything else IS equal *)
+Proof.
+  destruct (local_seal_op (v4_params toy) le_counter_rng 5 key32 [] msg3 [] []) as [[p1| |] j] eqn:E1;
+    try (vm_compute in E1; discriminate).
+  assert (j = 6) by (vm_compute in E1; inversion E1; reflexivity). subst j.
+  destruct (local_seal_op (v4_params toy) le_counter_rng 6 key32 [] msg3 [] []) as [[p2| |] k] eqn:E2;
+    try (vm_compute in E2; discriminate).
+  assert (k = 7) by (vm_compute in E2; inversion E2; reflexivity). subst k.
+  exists p1, p2. split; [reflexivity|]. split; [reflexivity|]. split.
+  - apply (C16_consecutive_seals_have_different_nonces (v4_params toy) le_counter_rng 256 5
+             key32 [] msg3 [] [] key32 [] msg3 [] [] p1 p2 6 7 le_counter_rng_fresh_below);
+      [lia|exact v4_synth_id|apply le_counter_rng_len|apply le_counter_rng_len|exact E1|exact E2].
+  - vm_compute in E1, E2. inversion E1. inversion E2. reflexivity.
+Qed.
+(* the freshness premise is used: under the constant source the two tokens are IDENTICAL *)
+Example C16_consecutive_seals_have_different_nonces_nonvacuous_hyp_used :
+  fst (local_seal_op (v4_params toy) (script_rng None) 5 key32 [] msg3 [] []) =
+  fst (local_seal_op (v4_params toy) (script_rng None) 6 key32 [] msg3 [] []) /\
+  ~ fresh_below (script_rng None) 7.
+Proof.
+  split; [vm_compute; reflexivity|].
+  intros H. apply (H 0 1 1 1 [x00] [x00]); try reflexivity; try lia. discriminate.
+Qed.
+
+(* ---- PIE ---- *)
+Example C16_pie_wrap_op_fail_closed_nonvacuous :
+  pie_wrap_op (v4_pie toy) (script_rng (Some 3)) 3 [x68] key32 [x6b; x6b] = (Err CryptoError, 4) /\
+  (exists blob, pie_wrap_op (v4_pie toy) (script_rng (Some 3)) 4 [x68] key32 [x6b; x6b] = (Ok blob, 5) /\ length blob = 66) /\
+  pie_wrap_op (v3_pie toy) R3 3 [x68] key32 [x6b; x6b] = (Err CryptoError, 4).
+Proof.
+  split; [exact (C16_pie_wrap_op_fail_closed (v4_pie toy) (script_rng (Some 3)) 3 [x68] key32 [x6b; x6b] eq_refl)|].
+  split; [eexists; split; [vm_compute; reflexivity|reflexivity]|].
+  exact (C16_pie_wrap_op_fail_closed (v3_pie toy) R3 3 [x68] key32 [x6b; x6b] eq_refl).
+Qed.
+
+(* ---- PBKW: both disjuncts (failure at the salt draw; salt served, failure at the nonce draw) ---- *)
+Example C16_pbkw_wrap_op_fail_closed_nonvacuous :
+  fst (pw_wrap_op (v4_pw toy) (script_rng (Some 4)) 4 [x68] [x70; x77] params16 [x6b; x6b]) = Err CryptoError /\
+  fst (pw_wrap_op (v4_pw toy) (script_rng (Some 5)) 4 [x68] [x70; x77] params16 [x6b; x6b]) = Err CryptoError /\
+  snd (pw_wrap_op (v4_pw toy) (script_rng (Some 4)) 4 [x68] [x70; x77] params16 [x6b; x6b]) = 5 /\
+  snd (pw_wrap_op (v4_pw toy) (script_rng (Some 5)) 4 [x68] [x70; x77] params16 [x6b; x6b]) = 6 /\
+  (* the same call on the healthy part of the source yields a blob *)
+  is_ok (fst (pw_wrap_op (v4_pw toy) (script_rng (Some 4)) 5 [x68] [x70; x77] params16 [x6b; x6b])) = true /\
+  (* PBKDF2 family: sizes 32 / 16 *)
+  fst (pw_wrap_op (lc_pw toy) (script_rng (Some 1)) 0 [x68] [x70; x77] [x00;x00;x03;xe8] [x6b; x6b]) = Err CryptoError.
+Proof.
+  split; [apply C16_pbkw_wrap_op_fail_closed; left; reflexivity|].
+  split; [apply C16_pbkw_wrap_op_fail_closed; right; exists (repeat x00 16); split; reflexivity|].
+  split; [reflexivity|]. split; [reflexivity|]. split; [vm_compute; reflexivity|].
+  apply C16_pbkw_wrap_op_fail_closed. right. exists (repeat x00 32). split; reflexivity.
+Qed.
+
+Example C16_pbkw_wrap_op_embeds_nonvacuous :
+  exists blob, pw_wrap_op (v4_pw toy) le_counter_rng 7 [x68] [x70; x77] params16 [x6b; x6b] = (Ok blob, 9) /\
+               take 16 blob = x07 :: repeat x00 15 /\ take 24 (drop 32 blob) = x08 :: repeat x00 23 /\
+               length blob = 16 + 16 + 24 + 2 + 32.
+Proof.
+  destruct (pw_wrap_op (v4_pw toy) le_counter_rng 7 [x68] [x70; x77] params16 [x6b; x6b]) as [[blob| |] j] eqn:E;
+    try (vm_compute in E; discriminate).
+  destruct (C16_pbkw_wrap_op_embeds (v4_pw toy) le_counter_rng 7 [x68] [x70; x77] params16 [x6b; x6b]
+              (le_bytes 16 7) (le_bytes 24 8) blob j eq_refl eq_refl (le_bytes_length _ _) (le_bytes_length _ _) eq_refl E)
+    as (A & B & C).
+  subst j. exists blob. split; [reflexivity|]. split; [exact A|]. split; [exact B|].
+  vm_compute in E. inversion E. reflexivity.
+Qed.
+
+(* ---- v3 key generation ---- *)
+Example C16_v3_generated_key_is_a_draw_nonvacuous :
+  v3_random picky two_step 0 5 = (GenKey (repeat x01 48), 2) /\
+  0 < 2 /\ two_step (2 - 1) 48 = Some (repeat x01 48) /\ p384_pk picky (repeat x01 48) <> None /\
+  (* the block served first was NOT returned, and it was an invalid scalar *)
+  two_step 0 48 = Some (repeat x00 48) /\ p384_pk picky (repeat x00 48) = None.
+Proof.
+  assert (H : v3_random picky two_step 0 5 = (GenKey (repeat x01 48), 2)) by (vm_compute; reflexivity).
+  destruct (C16_v3_generated_key_is_a_draw picky two_step 0 5 _ _ H) as (A & B & C).
+  split; [exact H|]. split; [exact A|]. split; [exact B|]. split; [exact C|]. split; reflexivity.
+Qed.
+
+(* the source serves an invalid scalar at call 0 and fails at call 1 *)
+Example C16_v3_generation_fails_closed_nonvacuous :
+  v3_random picky (script_rng (Some 1)) 0 5 = (GenRngFailed, 2) /\ 0 < 2 /\ script_rng (Some 1) (2 - 1) 48 = None /\
+  v3_random toy (script_rng (Some 0)) 0 5 = (GenRngFailed, 1).
+Proof.
+  assert (H : v3_random picky (script_rng (Some 1)) 0 5 = (GenRngFailed, 2)) by (vm_compute; reflexivity).
+  destruct (C16_v3_generation_fails_closed picky (script_rng (Some 1)) 0 5 2 H) as (A & B).
+  split; [exact H|]. split; [exact A|]. split; [exact B|]. vm_compute. reflexivity.
+Qed.
+
+(* FINDING (WEAKER): C16_v3_generation_fails_closed is the CONVERSE of "fails closed".  It says: IF the outcome is
+   GenRngFailed THEN the last call failed.  The property ("fails closed when the RNG fails") is the other
+   direction: IF a call of the loop fails THEN the outcome is the failure and there is no key.  That direction
+   holds of the model (first lemma), but it does not follow from the four C16 generation theorems: a generator that
+   swallows an RNG failure and simply tries again satisfies all four statements (second group of lemmas). *)
+Lemma C16_v3_generation_really_fails_closed : forall O R i fuel,
+  R i 48 = None -> v3_random O R i (S fuel) = (GenRngFailed, S i).
+Proof. intros O R i fuel H. cbn [v3_random]. rewrite H. reflexivity. Qed.
+Lemma C16_v3_generation_failure_after_skips_gives_no_key : forall O R fuel i n,
+  (forall m x, i <= m < n -> R m 48 = Some x -> p384_pk O x = None) -> (forall m, i <= m < n -> R m 48 <> None) ->
+  i <= n -> R n 48 = None -> n - i < fuel -> v3_random O R i fuel = (GenRngFailed, S n).
+Proof.
+  intros O R fuel. induction fuel as [|f IH]; intros i n Hinv Hsome Hle Hn Hf; [lia|].
+  cbn [v3_random]. destruct (Nat.eq_dec i n) as [->|Hne]; [rewrite Hn; reflexivity|].
+  destruct (R i 48) as [b|] eqn:E; [|exfalso; apply (Hsome i); [lia|exact E]].
+  rewrite (Hinv i b ltac:(lia) E). apply IH; try lia; try assumption.
+  - intros m x Hm. apply Hinv. lia.
+  - intros m Hm. apply Hsome. lia.
+Qed.
+
+Section RetryGenerator.
+  Variable O : oracle.
+  (* NOT the library: on a failed draw it carries on with the next call *)
+  Fixpoint retry_random (R : rng) (i : nat) (fuel : nat) : gen_out * nat :=
+    match fuel with
+    | 0 => (GenOutOfFuel, i)
+    | S f =>
+        match R i 48 with
+        | None => retry_random R (S i) f
+        | Some b => match p384_pk O b with Some _ => (GenKey b, S i) | None => retry_random R (S i) f end
+        end
+    end.
+  Lemma retry_key_is_a_draw R i fuel k j :
+    retry_random R i fuel = (GenKey k, j) -> i < j /\ R (j - 1) 48 = Some k /\ p384_pk O k <> None.
+  Proof.
+    revert i. induction fuel as [|f IH]; intros i; cbn [retry_random]; [discriminate|].
+    destruct (R i 48) as [b|] eqn:E.
+    - destruct (p384_pk O b) eqn:Ep.
+      + intros H; inversion H; subst. replace (S i - 1) with i by lia. repeat split; [lia|exact E|congruence].
+      + intros H. destruct (IH (S i) H) as (A & B & C). repeat split; [lia|exact B|exact C].
+    - intros H. destruct (IH (S i) H) as (A & B & C). repeat split; [lia|exact B|exact C].
+  Qed.
+  Lemma retry_key_is_accepted R i fuel k j :
+    (forall n x, R n 48 = Some x -> length x = 48) ->
+    retry_random R i fuel = (GenKey k, j) ->
+    v3_decode_secret O k = Ok k /\ lc_decode_secret O k = Ok k.
+  Proof.
+    intros HL H. destruct (retry_key_is_a_draw R i fuel k j H) as (_ & Hd & Hv).
+    pose proof (HL _ _ Hd) as Lk.
+    unfold v3_decode_secret, lc_decode_secret. rewrite Lk. cbn [Nat.eqb negb].
+    destruct (p384_pk O k); [split; reflexivity|congruence].
+  Qed.
+  Lemma retry_never_reports_failure R i fuel j : retry_random R i fuel <> (GenRngFailed, j).
+  Proof.
+    revert i. induction fuel as [|f IH]; intros i; cbn [retry_random]; [discriminate|].
+    destruct (R i 48) as [b|]; [destruct (p384_pk O b); [discriminate|apply IH]|apply IH].
+  Qed.
+  (* hence the "fails closed" statement holds of it vacuously ... *)
+  Lemma retry_fails_closed_statement R i fuel j :
+    retry_random R i fuel = (GenRngFailed, j) -> i < j /\ R (j - 1) 48 = None.
+  Proof. intros H. exfalso. exact (retry_never_reports_failure R i fuel j H). Qed.
+  Lemma retry_skips_only_invalid R i fuel out j n x :
+    retry_random R i fuel = (out, j) -> i <= n -> S n < j -> R n 48 = Some x -> p384_pk O x = None.
+  Proof.
+    revert i. induction fuel as [|f IH]; intros i; cbn [retry_random].
+    - intros H; inversion H; subst. lia.
+    - destruct (R i 48) as [b|] eqn:E.
+      + destruct (p384_pk O b) eqn:Ep.
+        * intros H; inversion H; subst. lia.
+        * intros H Hi Hj Hx. destruct (Nat.eq_dec n i) as [->|Hne].
+          -- rewrite E in Hx. inversion Hx; subst. exact Ep.
+          -- apply (IH (S i) H); [lia|exact Hj|exact Hx].
+      + intros H Hi Hj Hx. destruct (Nat.eq_dec n i) as [->|Hne]; [congruence|].
+        apply (IH (S i) H); [lia|exact Hj|exact Hx].
+  Qed.
+End RetryGenerator.
+(* ... while it hands out a key although the source failed during the operation *)
+Lemma C16_v3_generation_statements_admit_ignoring_a_failure :
+  retry_random toy (script_rng (Some 0)) 0 5 = (GenKey (repeat x00 48), 2) /\ script_rng (Some 0) 0 48 = None /\
+  v3_random toy (script_rng (Some 0)) 0 5 = (GenRngFailed, 1).
+Proof. repeat split; vm_compute; reflexivity. Qed.
+
+(* the block sizes the *_op definitions request are those of the library's draw table [op_draws] (which the
+   scripted-RNG harness ties to the code); v2's 24-byte local nonce is NOT an instance of local_seal_op, and the
+   PKE seals, the randomised signatures and plain key generation have no *_op theorem (scope, not a defect) *)
+Example C16_op_sizes_are_the_draw_table :
+  op_draws B4 RLocalNonce = [32] /\ op_draws B3 RPie = [32] /\
+  [pw_salt_len (v4_pw toy); pw_nonce_len (v4_pw toy)] = op_draws B4 RPbkw /\
+  [pw_salt_len (lc_pw toy); pw_nonce_len (lc_pw toy)] = op_draws B3A RPbkw /\
+  op_draws B2 RLocalNonce = [24].
+Proof. repeat split. Qed.
+
+Example C16_v3_generation_failure_gives_no_key_nonvacuous :
+  v3_random picky (fun i n => if Nat.eqb i 0 then Some (repeat x00 n) else None) 0 5 = (GenRngFailed, 2).
+Proof.
+  apply (C16_v3_generation_failure_gives_no_key picky _ 5 0 1); try lia.
+  - intros m x Hm H. assert (m = 0) by lia. subst m. cbn in H. inversion H. reflexivity.
+  - intros m Hm. assert (m = 0) by lia. subst m. discriminate.
+  - reflexivity.
+Qed.
